@@ -128,16 +128,19 @@ Shapes == UNION {{s \in ShapesOfLen(n) : GoodShape(s)} : n \in MinClasses..MaxCl
 
 (* ---- functions of a chain that is the component itself                                                           *)
 FnDescs(j) ==
-       {[own |-> own, kw |-> FALSE, k |-> "ignore", hard |-> {}, q |-> {}, qop |-> "pop"] : own \in SmallSets(FnOwn)}
-  \cup {[own |-> own, kw |-> TRUE, k |-> "ignore", hard |-> {}, q |-> q, qop |-> qop] :
+       {[own |-> own, kw |-> FALSE, k |-> "ignore", hard |-> {}, q |-> {}, qop |-> "pop", qpos |-> "stmt"] : own \in SmallSets(FnOwn)}
+  \cup {[own |-> own, kw |-> TRUE, k |-> "ignore", hard |-> {}, q |-> q, qop |-> qop, qpos |-> "stmt"] :
           own \in SmallSets(FnOwn), q \in SmallSets(MaxPop), qop \in {"pop", "get"}}
+  \cup {[own |-> own, kw |-> TRUE, k |-> "ignore", hard |-> {}, q |-> q, qop |-> qop, qpos |-> "alias"] :
+          own \in SmallSets(FnOwn), q \in {x \in SmallSets(IF MaxPop > 0 THEN 2 ELSE 0) : Cardinality(x) = 2}, qop \in {"pop", "get"}}
   \cup (IF j >= MaxChain THEN {} ELSE
-       {[own |-> own, kw |-> TRUE, k |-> "next", hard |-> hard, q |-> q, qop |-> "pop"] :
+       UNION {{[own |-> own, kw |-> TRUE, k |-> "next", hard |-> hard, q |-> q, qop |-> "pop", qpos |-> qp] : qp \in Places(hard, q, TRUE)} :
           own \in SmallSets(FnOwn), hard \in SmallSets(MaxHard), q \in SmallSets(IF MaxPop > 0 THEN 1 ELSE 0)})
 FnWeight(d) == Cardinality(d.own) + Cardinality(d.hard) + Cardinality(d.q)
 FnSane(d) == ~(d.qop = "get" /\ d.q = {})
-FnBuild(j, d) == Sig(j, d.own, d.kw, Fw(d.k, 0, d.hard, d.q, d.qop, << >>))
+FnBuild(j, d) == Sig(j, d.own, d.kw, FwX(d.k, 0, d.hard, d.q, d.qop, d.qpos, "-", << >>))
 FnCode(d) == Mask(d.own) + 16 * Mask(d.hard) + 256 * Mask(d.q) + (IF d.kw THEN 4096 ELSE 0) + (IF d.k = "next" THEN 8192 ELSE 0) + (IF d.qop = "get" THEN 16384 ELSE 0)
+             + 32768 * PosIn(QPos, d.qpos)
 
 (* ---- the state: a program under construction                                                                      *)
 VARIABLES shape,   \* base lists of the class program being built (<< >> for a function chain)
